@@ -127,6 +127,15 @@ func newRequest(ctx context.Context, body string) *http.Request {
 		req, _ = http.NewRequestWithContext(ctx, http.MethodGet, "http://reg.example/v2/", nil)
 	case "replay":
 		req, _ = http.NewRequestWithContext(ctx, http.MethodPut, "http://reg.example/v2/r/manifests/x", bytes.NewReader(payload))
+	case "replaystream":
+		// a body of unknown length (ContentLength 0 with a non-nil Body) that can be produced again
+		req, _ = http.NewRequestWithContext(ctx, http.MethodPut, "http://reg.example/v2/r/manifests/x", &oneShot{bytes.NewReader(payload)})
+		req.ContentLength = 0
+		req.GetBody = func() (io.ReadCloser, error) { return &oneShot{bytes.NewReader(payload)}, nil }
+	case "oneshotstream":
+		// a body of unknown length that cannot be produced again
+		req, _ = http.NewRequestWithContext(ctx, http.MethodPut, "http://reg.example/v2/r/manifests/x", &oneShot{bytes.NewReader(payload)})
+		req.ContentLength = 0
 	default:
 		req, _ = http.NewRequestWithContext(ctx, http.MethodPut, "http://reg.example/v2/r/manifests/x", &oneShot{bytes.NewReader(payload)})
 		req.ContentLength = int64(len(payload))
@@ -237,6 +246,13 @@ func TestDrive(t *testing.T) {
 		{"bearer-ok-twice", []string{"bearer", "ok", "bearer", "ok"}, "replay", 200, 4, true},
 		{"bearer-ok-twice-tm", []string{"bearer", "ok", "bearer", "tm", "ok"}, "replay", 200, 4, true},
 		{"basic-ok-twice", []string{"basic", "ok", "ok"}, "replay", 200, 3, true},
+		{"basic-then-ok", []string{"basic", "ok"}, "replaystream", 200, 2, false},
+		{"basic-then-ok", []string{"basic", "ok"}, "oneshotstream", 200, 2, false},
+		{"bearer-then-ok", []string{"bearer", "ok"}, "replaystream", 200, 2, false},
+		{"bearer-then-ok", []string{"bearer", "ok"}, "oneshotstream", 200, 2, false},
+		{"ise-basic-ise-ok", []string{"ise", "basic", "ise", "ok"}, "replaystream", 200, 2, false},
+		{"ise-basic-ise-ok", []string{"ise", "basic", "ise", "ok"}, "oneshotstream", 200, 2, false},
+		{"bearer-tm-ok", []string{"bearer", "tm", "ok"}, "replaystream", 200, 2, false},
 	}
 	for si, sc := range stacks {
 		for _, mr := range []int{1, 3} {
